@@ -286,6 +286,23 @@ def run_noise(ctx, case):
       return True
   if which == "white":
     ctx.count("noise:white:range_checked", len(got))
+    if b > a and len(got) >= 64:
+      # "uniform ... within [low, high]": 64+ samples that all fall into the
+      # same half of a non-degenerate interval have probability < 2 ** -62
+      # under any uniform generator (a constant, `uniform(low, low)`, ... does)
+      mid = (a + b) / 2.0
+      lower = sum(1 for v in got if v < mid)
+      ctx.count("noise:white:spread_checked")
+      if lower == 0 or lower == len(got):
+        ctx.violation("white_noise/not-spread-over-the-interval", case,
+                      samples=len(got), in_lower_half=lower, low=a, high=b)
+  elif len(got) >= 64 and b > 0:
+    # gauss_noise(mu, sigma): the same argument about mu
+    lower = sum(1 for v in got if v < a)
+    ctx.count("noise:gauss:spread_checked")
+    if lower == 0 or lower == len(got):
+      ctx.violation("gauss_noise/not-spread-around-mu", case,
+                    samples=len(got), below_mu=lower, mu=a, sigma=b)
   return True
 
 
@@ -932,7 +949,7 @@ def gen_noise(rng):
   elif c < 0.25:
     dur, style = inf, rng.choice(["dur", "kw", "pos"])
   else:
-    dur, style = r_dur(rng, rng.choice([3, 80])), \
+    dur, style = r_dur(rng, rng.choice([3, 80, 200, 200])), \
                  rng.choice(["dur", "kw", "pos"])
   if style in ("noarg", "dur"):
     a, b = (-1., 1.) if which == "white" else (0., 1.)
@@ -1291,6 +1308,7 @@ def finish(ctx):
   ctx.need("noise:gauss:finite", 10)
   ctx.need("noise:gauss:endless", 2)
   ctx.need("noise:white:range_checked", 300)
+  ctx.need("noise:white:spread_checked", 10)
   ctx.need("adsr:cases", 60)
   ctx.need("adsr:with_sustain", 20)
   ctx.need("adsr:fractional_segment", 15)
